@@ -120,9 +120,13 @@ func main() {
 	}
 	wg.Wait()
 
+	sampled := map[string]int{}
 	for i, c := range cases {
 		ans := common.Fields(answers[i])
-		y, g := ans["y"], ans["g"]
+		y, g, yx := ans["y"], ans["g"], ans["yx"]
+		if yx == "" {
+			yx = y
+		}
 		if y == "" || g == "" {
 			run.Errorf("driver answered %q to %q", answers[i], lines[i])
 			continue
@@ -138,7 +142,12 @@ func main() {
 			run.Hit("class:in-domain")
 		}
 		describe(run, c)
-		run.Sample(map[string]interface{}{"case": c, "source": c.source(), "impl": im, "model": y, "spec": g, "ref": rf}, 8)
+		// samples: up to two of each kind/context, the program ones with some depth
+		sk := c.Kind + ":" + c.Ctx
+		if sampled[sk] < 2 && (c.Kind == "repr" && reprNontrivial(c) || c.Kind == "prog" && nontrivial(c) && len(c.source()) > 40 && len(c.source()) < 400) {
+			sampled[sk]++
+			run.Sample(map[string]interface{}{"case": c, "source": c.source(), "impl": im, "model": y, "spec": g, "ref": rf, "class": sig}, 12)
+		}
 		modelled := y != "?"
 		if modelled && !modelSays(y, im) {
 			run.Disagree(common.Disagreement{Kind: "impl-vs-model", Input: c, Impl: im, Model: y, Ref: rf, Note: c.source()})
@@ -157,18 +166,19 @@ func main() {
 		}
 		if !agree(im, rf) {
 			// a listed class explains the difference only when the implementation still behaves as the
-			// model of the unchanged code predicts; otherwise this is a new failing input
-			d := common.Disagreement{Kind: "impl-vs-ref", Input: c, Impl: im, Model: y, Ref: rf, Finding: sig, Note: c.source()}
-			if modelled && !modelSays(y, im) {
+			// model of the *unchanged* code (expected facts, yx=) predicts; otherwise this is a new failing input
+			d := common.Disagreement{Kind: "impl-vs-ref", Input: c, Impl: im, Model: yx, Ref: rf, Finding: sig, Note: c.source()}
+			if yx != "?" && !modelSays(yx, im) {
 				d.Finding, d.Note = "", "differs from the reference and from the model of the unchanged code (class "+sig+"): "+c.source()
 			}
 			run.Disagree(d)
 			if os.Getenv("VERIF_C03_DUMP") != "" {
 				fmt.Fprintf(os.Stderr, "DIFF %-60s impl=%-30s ref=%-30s y=%s cls=%s\n", c.source(), im, rf, y, sig)
 			}
-		} else if sig == "" && modelled && !modelSays(y, g) {
-			// inside the proved domain the two models must agree (cheap cross-check of the theorem statement)
-			run.Errorf("model and spec differ inside the domain on %s: y=%s g=%s", lines[i], y, g)
+		} else if sig == "" && yx != "?" && !modelSays(yx, g) {
+			// inside the domain (no class) the model of the unchanged code and the spec model must agree
+			// (cheap cross-check of the classification)
+			run.Errorf("model and spec differ inside the domain on %s: yx=%s g=%s", lines[i], yx, g)
 		}
 	}
 }
